@@ -62,10 +62,27 @@ def view_stage(work, res, tier, prefixes, replay=None):
             return r, out
 
         traces = []
-        with ThreadPoolExecutor(max_workers=len(models)) as ex:
-            for r, out in ex.map(pipeline, range(len(models))):
+        cached = cache_load(tier)
+        if cached:
+            # The six membership properties share this stage.  Its result for exactly this tree, this machinery, tier and
+            # seed was computed by an earlier thorough check and contained no verdict of any property: it is reused.
+            log("view stage: result for this tree reused from %s (computed %s; identical sources, tier, seed)" %
+                (cached["path"], cached["computed_at"]))
+            res.cov["reused_view_stage"] = {"key": cached["key"], "computed_at": cached["computed_at"]}
+            for r in cached["models"]:
                 res.add_model(r)
-                traces += out
+            traces = cached["traces"]
+        else:
+            rs = []
+            with ThreadPoolExecutor(max_workers=len(models)) as ex:
+                for r, out in ex.map(pipeline, range(len(models))):
+                    res.add_model(r)
+                    rs.append(r)
+                    traces += out
+            for tr in traces:
+                tr["samples"] = trace_samples(tr["trace"])
+            if tier == "thorough" and not any(tr["judged"]["verdicts"] for tr in traces):
+                cache_store(tier, rs, traces)
 
     stats_total = {}
     nverd = 0
@@ -103,12 +120,7 @@ def view_stage(work, res, tier, prefixes, replay=None):
                         fh.write(edge_lines.get(case, ""))
             nverd += len(mine)
         if not res.cov["samples"] or len(res.cov["samples"]) < 3:
-            with open(tr["trace"]) as fh:
-                for i, line in enumerate(fh):
-                    if i in (0, 1000, 20000):
-                        e = json.loads(line)
-                        res.cov["samples"].append({k: e[k] for k in ("op", "via", "claim", "pre", "post", "bcast", "events")
-                                                   if k in e})
+            res.cov["samples"] += tr.get("samples") or trace_samples(tr["trace"])
         if vlib.STRICT and j["drift"]:
             raise Infra("VERIF_STRICT: drift")
     mine_stats = {k: v for k, v in stats_total.items() if any(k.startswith(p) for p in prefixes)}
@@ -121,6 +133,82 @@ def view_stage(work, res, tier, prefixes, replay=None):
         "time: testing/synctest virtual clock; one abstract tick = 1h, thresholds at 1.5h",
     ]
     return nverd
+
+
+def trace_samples(trace):
+    out = []
+    with open(trace) as fh:
+        for i, line in enumerate(fh):
+            if i in (0, 1000, 20000):
+                e = json.loads(line)
+                out.append({k: e[k] for k in ("op", "via", "claim", "pre", "post", "bcast", "events") if k in e})
+            if i > 20000:
+                break
+    return out
+
+
+def cache_key(tier):
+    """content hash of everything the view stage depends on: the tree under test, the machinery, tier and seed"""
+    import hashlib
+    h = hashlib.sha256()
+    h.update(("%s|%s|%s" % (tier, vlib.SEED, json.dumps(TIERS[tier]))).encode())
+    roots = [(vlib.REPO, (".go", ".mod", ".sum"))] + [(os.path.join(vlib.VERIF, d), None) for d in ("spec", "cfg", "harness", "bin")]
+    for root, exts in roots:
+        for dp, dn, fn in sorted(os.walk(root)):
+            dn[:] = sorted(x for x in dn if x not in (".git", "__pycache__"))
+            for f in sorted(fn):
+                if exts and not f.endswith(exts):
+                    continue
+                if f.endswith(".pyc"):
+                    continue
+                p = os.path.join(dp, f)
+                h.update(os.path.relpath(p, root).encode() + b"\0")
+                with open(p, "rb") as fh:
+                    h.update(fh.read())
+                h.update(b"\0")
+    return h.hexdigest()[:32]
+
+
+def cache_dir():
+    return os.environ.get("VERIF_CACHE") or os.path.join(vlib.VERIF, ".cache")
+
+
+def cache_load(tier):
+    if tier != "thorough" or os.environ.get("VERIF_NOCACHE"):
+        return None
+    key = cache_key(tier)
+    p = os.path.join(cache_dir(), "view-%s.json" % key)
+    if not os.path.exists(p):
+        return None
+    try:
+        with open(p) as fh:
+            c = json.load(fh)
+    except (OSError, ValueError):
+        return None
+    if c.get("key") != key:
+        return None
+    for tr in c["traces"]:
+        j = tr["judged"]
+        j["drift"] = [tuple(x) for x in j["drift"]]
+        j["stats"] = {k: tuple(v) for k, v in j["stats"].items()}
+    c["path"] = p
+    return c
+
+
+def cache_store(tier, models, traces):
+    if os.environ.get("VERIF_NOCACHE"):
+        return
+    import time
+    key = cache_key(tier)
+    os.makedirs(cache_dir(), exist_ok=True)
+    keep = [{"replayed": tr["replayed"], "skipped": tr["skipped"], "variant": tr["variant"], "samples": tr.get("samples", []),
+             "judged": {"lines": tr["judged"]["lines"], "verdicts": [], "drift": tr["judged"]["drift"],
+                        "stats": tr["judged"].get("stats", {})}} for tr in traces]
+    tmp = os.path.join(cache_dir(), "view-%s.json.tmp%d" % (key, os.getpid()))
+    with open(tmp, "w") as fh:
+        json.dump({"key": key, "computed_at": time.strftime("%Y-%m-%dT%H:%M:%SZ", time.gmtime()), "tier": tier,
+                   "models": models, "traces": keep}, fh)
+    os.replace(tmp, os.path.join(cache_dir(), "view-%s.json" % key))
 
 
 def replay_edges(work, binp, edges, variant, nshards, sample=1.0):
